@@ -9,3 +9,4 @@ import SsqlVerif.Props.C10
 #print axioms C10.reference_ignores_schedule
 #print axioms C10.schedule_independent
 #print axioms C10.delivered_is_reference_after_flush
+#print axioms C10.manual_flush
